@@ -29,6 +29,7 @@ type event struct {
 	path string // r.URL.Path
 	uri  string // r.RequestURI when it disagrees with r.URL.RequestURI(), else "" (not part of the canonical answer)
 	err  string // "n" or the status of the error in the request context ("0": not a HandlerError)
+	repl string // "n" or the value of the {http.error.status_code} placeholder
 }
 
 type recorder struct{ events []event }
@@ -68,7 +69,13 @@ func (p *Probe) ServeHTTP(w http.ResponseWriter, r *http.Request, next caddyhttp
 			// of the request (WithError) can hold a stale RequestURI next to a rewritten URL
 			uri = r.RequestURI
 		}
-		rec.events = append(rec.events, event{p.ID, r.URL.Path, uri, e})
+		rs := "n"
+		if repl, ok := r.Context().Value(caddy.ReplacerCtxKey).(*caddy.Replacer); ok {
+			if v, ok := repl.Get("http.error.status_code"); ok {
+				rs = fmt.Sprint(v)
+			}
+		}
+		rec.events = append(rec.events, event{p.ID, r.URL.Path, uri, e, rs})
 	}
 	switch p.Kind {
 	case "pass":
@@ -210,6 +217,22 @@ func routesJSON(rs []*route) []obj {
 				hs = append(hs, obj{"handler": "verif_c05", "id": h.id, "kind": "rewrite", "path": paths[h.arg]})
 			case 'f':
 				hs = append(hs, obj{"handler": "verif_c05", "id": h.id, "kind": "fail", "status": h.arg})
+			case 'x', 'y':
+				o := obj{"handler": map[byte]string{'x': "error", 'y': "static_response"}[h.kind]}
+				switch h.arg {
+				case 0:
+				case 1:
+					o["status_code"] = "{http.error.status_code}"
+				case 2:
+					o["status_code"] = "teapot"
+				default:
+					if h.arg%2 == 0 { // WeakString: a JSON number or a JSON string
+						o["status_code"] = h.arg
+					} else {
+						o["status_code"] = strconv.Itoa(h.arg)
+					}
+				}
+				hs = append(hs, o)
 			case 's':
 				s := obj{"handler": "subroute", "routes": routesJSON(h.routes)}
 				if h.hasErrs {
@@ -477,7 +500,11 @@ func canon(o observed) string {
 	}
 	var t []string
 	for _, e := range o.events {
-		t = append(t, fmt.Sprintf("%d.%s.%s", e.id, pathIndex(e.path), e.err))
+		es := e.err
+		if e.repl != e.err {
+			es += "/" + e.repl
+		}
+		t = append(t, fmt.Sprintf("%d.%s.%s", e.id, pathIndex(e.path), es))
 	}
 	ts := "-"
 	if len(t) > 0 {
